@@ -176,8 +176,42 @@ def run(ctx):
                              pattern=p, policy=pol, detail=f"real {k} {v!r}\nmodel {sexp.dumps(r)[:400] if not isinstance(r, str) else r}")
     ctx.cov["corr_disagreements"] = bad
     match_correspondence(ctx, [p for p, u in pats if u is None])
+    cap_family(ctx)
     for p, u in pats[:6]:
         ctx.sample({"pattern": p, "unsupported": u})
+
+
+def cap_family(ctx):
+    """the public `max_repeat` parameter: generators built with caps below, at and above every explicit repeat bound of the
+    pattern — among them bounds that coincide with small integers the parser also uses for other purposes (opcode numbers) —
+    must still produce strings matching the entire pattern"""
+    import random as _random
+    from d42.generation import Random, RegexGenerator
+    st = _random.getstate()
+    try:
+        for cap in (0, 1, 2, 5, 32, 44, 45, 64, 100, 300):
+            g = RegexGenerator(Random(), max_repeat=cap)
+            for n in list(range(0, 12)) + [31, 32, 33, 43, 44, 45, 46, 63, 64, 65, 99, 100, 101]:
+                for pat in (r"a{0,%d}" % n, r"(?:ab){1,%d}c" % max(n, 1), r"x{%d}" % n, r"\d{%d,}" % n, r"[ab]{0,%d}?z" % n, r"(a|b){%d,%d}" % (n, n + 3)):
+                    for k in range(3):
+                        _random.seed(1000 * cap + 10 * n + k)
+                        ctx.count("cap_family_cases")
+                        try:
+                            out = g.generate(pat)
+                        except Exception as e:  # noqa: BLE001
+                            ctx.violation("generator raised %s on a pattern from the supported grammar" % type(e).__name__,
+                                          pattern=pat, max_repeat=cap, exception=repr(e))
+                            break
+                        try:
+                            ok = len(out) > 5000 or fullmatch(pat, out)
+                        except _Timeout:
+                            ok = True
+                        if not ok:
+                            ctx.violation("generated string does not match the entire pattern", pattern=pat, max_repeat=cap,
+                                          generated=out[:200], length=len(out), python_seed=1000 * cap + 10 * n + k)
+                            break
+    finally:
+        _random.setstate(st)
 
 
 def _plain_anchors(items, sre):
